@@ -69,6 +69,55 @@ CLAIMS.update({
              "found were repaired in /repo.",
         note="Trusted: Lean kernel + 3 axioms; text lexing not modelled; end-to-end refinement (abs session = Env) is checked on generated programs, not proved.",
         ref="§7 C03"),
+    "C07": dict(
+        technique="Lean 4 proofs about the digit-string pipeline of format_number (correct rounding half-even of the exact value, digits read back, grouping shape, fraction rule) + exact-decimal oracle over the configuration space",
+        text="Proof: fixedParts (the model of `{:.N}`) returns the digits of the half-even rounding of the exact value (roundQuot_nearest, "
+             "roundQuot_tie_even, fixedParts_value), digits read back to the number (radixValue_radixDigits), grouping cuts the integer digits "
+             "into groups of three from the right joined by exactly the separator and is undone by removing it (group_shape, group_ungroup, "
+             "groupsFromRight_flatten), and format_number = sign ++ grouped integer ++ (decimal separator ++ fraction unless empty or removal "
+             "enabled and all printed digits zero) for every number type (format_shape). The implementation is compared on rounding ties +-ulp, "
+             "99..9.995, tiny, 10^k+-1, negatives x digits 0..9 x flags x separator pairs x number/percent/money (all currencies)/unit against "
+             "Python's exact Decimal expansion. format_number was repaired in /repo (one digit string).",
+        note="Trusted: Lean kernel + 3 axioms; Rust's {:.N}/Display assumed correctly rounded/shortest (soft-float model validated bit-for-bit every run).",
+        ref="§7 C07"),
+    "C08": dict(
+        technique="Lean 4 proofs that writing with any admissible separator pair and reading back yields the same decimal string / number, that the interpreter ignores separators outside unit conversion + metamorphic differential runs under separator pairs",
+        text="Proof: str::replace with a one-character pattern is character substitution (strReplace_single); for every pair of distinct non-digit "
+             "separators (and for the empty thousands separator) grouped-integer ++ dec ++ fraction reads back to `ip.fp` (read_write, "
+             "read_write_no_thousands), so two conventions denote the same number (read_same_number, any number type); calcItem does not depend "
+             "on the separator fields when no unit conversion is involved (calc_ignores_separators). Unit conversion re-renders intermediate values "
+             "in the configured convention: its independence is `partial`, decided by the metamorphic run (every unit pair, fractional values, "
+             "4 conventions, bit-exact equality). The separator leak found was repaired in /repo.",
+        note="Trusted: Lean kernel + 3 axioms; lexer glue not modelled; unit-conversion clause decided by enumeration.",
+        ref="§7 C08"),
+    "C10": dict(
+        technique="Lean 4 integer proofs (unit lengths, additivity, greedy decomposition for ALL durations, flooring) + kernel-decided data obligations + parse-back oracle on printed durations",
+        text="Proof over integers, no bound on counts: N unit = N*len for second/minute/hour/week/year (parse_len), days identity (parse_days), months "
+             "= 365*(N/12)+30*(N%12) days (parse_months, twelve_months_one_year), + and - (add_durations, sub_durations), juxtaposed durations sum "
+             "(combine_2/3 + regenerated patterns match 2..6 durations), greedy printing for EVERY duration: parts sum to the magnitude, counts >= 1, "
+             "units strictly descending, each part maximal (greedy_sum, greedy_counts_pos, greedy_descending, greedy_leading, greedy_zero), 'as' floors "
+             "(as_floor); data: every configured pattern has >= 2 tokens. Implementation output is parsed back into (count, word) parts and compared "
+             "with the integer spec incl. singular/plural.",
+        note="Trusted: Lean kernel + 3 axioms; number/word lexing exercised not modelled; plural word choice checked by the oracle, not a theorem.",
+        ref="§7 C10"),
+    "C11": dict(
+        technique="Lean 4 integer proofs modulo 86400 over all instants/offsets/durations + data obligation on the regenerated zone table + differential oracle over zone pairs (thorough: all ordered pairs)",
+        text="Proof: `H:MM Z` is re-anchored in Z independent of the default zone (with_zone, with_zone_shows_wall), conversion keeps the instant and the "
+             "shown time is wall - off1 + off2 mod 24h (convert_keeps_instant, convert_shown), +/- duration moves the shown clock mod 24h "
+             "(add_duration, sub_duration), T1 to T2 is the symmetric absolute difference (to_abs, to_symmetric), printing shows `shown` "
+             "(print_fields); data: all configured offsets within +-14h (zone_offsets_in_range, re-decided after regeneration). A zone-table key "
+             "defect (ChST) found by the pair enumeration was repaired in /repo.",
+        note="Trusted: Lean kernel + 3 axioms; time/zone lexer glue and set_timezone are regex code outside the model (exercised); process TZ=UTC.",
+        ref="§7 C11"),
+    "C13": dict(
+        technique="Lean 4 proof of the digit round trip for every natural number and base 2..16, rounding lemma, base-keeping arithmetic + differential round trips up to 2^70 / 1e25",
+        text="Proof: reading the printed digits gives the number back for EVERY n and base (print_read via radixValue_radixDigits), printed form = prefix "
+             "+ >=1 upper-case digit (printBased_nat, basedDigits_ne_nil), both letter cases read (digitOf_lower), `N to base` rounds half away from "
+             "zero (convert_rounds, round_half_away), arithmetic keeps the left base (arithmetic_keeps_base). Implementation: 2^k-1/2^k/2^k+1 up to "
+             "2^70, 64-bit random, 10^e up to 1e25, fractions around .5, 4x4 bases, printed literal fed back. Three defects repaired in /repo "
+             "(32-bit saturation, overflow panic, hex-vs-currency ambiguity).",
+        note="Trusted: Lean kernel + 3 axioms; values are doubles (integers above 2^53 are the nearest double); radix lexer glue exercised.",
+        ref="§7 C13"),
 })
 
 NOT_YET = {}
